@@ -785,6 +785,8 @@ impl<Aux> Vm<'_, Aux> {
         let mut instr_ptr = 0;
         let result = self._run(&mut instr_ptr);
         self.runtime_data.current_program = std::ptr::null();
+        // the run is over: drop its call frames, whether it finished or failed
+        self.runtime_data.call_stack.clear();
         result
     }
 
